@@ -1208,3 +1208,35 @@ mut("seek_compaction_skips_level0_expansion", ["C05", "C03", "C01", "C07"], "GRD
 mut("any_current_open_error_reinitialises", ["C08", "C02", "C11"], "GRD-20", patch="any_current_open_error_reinitialises.diff",
     note="a transient failure to open CURRENT of an existing database starts a new one; GC then deletes every table")
 mut("failed_install_removes_live_manifest", ["C08", "C02", "C11"], "GRD-21", patch="failed_install_removes_live_manifest.diff")
+
+# ---- 30 more (sets 5 and 6), aimed at the functions the newest rules anchor on
+benign_patch("refactor_s5_01", "benign/set5_refactor01.diff", note='pick_compaction: is_none()||unwrap() -> match on a hoisted Option')
+benign_patch("refactor_s5_02", "benign/set5_refactor02.diff", note='compact_range: enumerate; truncate after the loop via Option<usize>')
+benign_patch("refactor_s5_03", "benign/set5_refactor03.diff", note='DB::recover: re-assigned mut local removed')
+benign_patch("refactor_s5_04", "benign/set5_refactor04.diff", note='log_and_apply: Ok arm extracted into install_new_version')
+benign_patch("refactor_s5_05", "benign/set5_refactor05.diff", note='get_new_version_from_current: is_some/unwrap -> if let; computed flag reused')
+benign_patch("refactor_s5_06", "benign/set5_refactor06.diff", note='InternalKey::cmp: one match on the user-key ordering')
+benign_patch("refactor_s5_07", "benign/set5_refactor07.diff", note='VersionBuilder::apply_changes: drain loops over remaining sub-slices')
+benign_patch("refactor_s5_08", "benign/set5_refactor08.diff", note='maybe_add_file: !is_empty()+last().unwrap() -> if let Some(last)')
+benign_patch("refactor_s5_09", "benign/set5_refactor09.diff", note='FileMetadataBySmallestKey::compare: early return when not Equal')
+benign_patch("refactor_s5_10", "benign/set5_refactor10.diff", note='get_representative_iterators: 1..MAX -> files.iter().skip(1); continue -> inverted if')
+benign_patch("refactor_s5_11", "benign/set5_refactor11.diff", note='get_overlapping_files: operand swaps; Arc::clone spelling')
+benign_patch("refactor_s5_12", "benign/set5_refactor12.diff", note='pick_level_for_memtable_output: while -> loop/break; threshold local')
+benign_patch("refactor_s5_13", "benign/set5_refactor13.diff", note='is_trivial_move: getter inlined; len()==0 -> is_empty(); locals')
+benign_patch("refactor_s5_14", "benign/set5_refactor14.diff", note='TableCache::find_table: disk open extracted into open_table_file')
+benign_patch("refactor_s5_15", "benign/set5_refactor15.diff", note='recover_unrecorded_logs: nested match flattened')
+benign_patch("refactor_s6_01", "benign/set6_refactor01.diff", note='TableBuilder::add_entry: single-use local inlined; Rc::clone dropped')
+benign_patch("refactor_s6_02", "benign/set6_refactor02.diff", note='TableBuilder::finalize: write_footer extracted')
+benign_patch("refactor_s6_03", "benign/set6_refactor03.diff", note='notify_new_data_block: while -> loop/break with swapped operands')
+benign_patch("refactor_s6_04", "benign/set6_refactor04.diff", note='create_filter: cmp::max; mut local split')
+benign_patch("refactor_s6_05", "benign/set6_refactor05.diff", note='key_may_match: is_bit_set helper')
+benign_patch("refactor_s6_06", "benign/set6_refactor06.diff", note='read_filter_meta_block: map_err(..)?')
+benign_patch("refactor_s6_07", "benign/set6_refactor07.diff", note='LogWriter::append: cmp::min; get_block_type helper')
+benign_patch("refactor_s6_08", "benign/set6_refactor08.diff", note='LogReader::read_record: if let Err/else -> match')
+benign_patch("refactor_s6_09", "benign/set6_refactor09.diff", note='InMemoryFileSystem::lock_file: nested match flattened')
+benign_patch("refactor_s6_10", "benign/set6_refactor10.diff", note='Version::update_stats: guard clauses; De Morgan')
+benign_patch("refactor_s6_11", "benign/set6_refactor11.diff", note='make_room_for_write: if let Some(..)=.as_ref(); else-if split; log reworded')
+benign_patch("refactor_s6_12", "benign/set6_refactor12.diff", note='DB::get: Option::cloned() for both memtables')
+benign_patch("refactor_s6_13", "benign/set6_refactor13.diff", note='Drop for DB: while -> loop/break')
+benign_patch("refactor_s6_14", "benign/set6_refactor14.diff", note='coordinate_compaction: if let Some; local')
+benign_patch("refactor_s6_15", "benign/set6_refactor15.diff", note='destroy_database: map_err(..)?; lock path local reused')
